@@ -4,7 +4,8 @@ Only the property text and a scratch worktree path are handed over (nothing from
 import json, sys
 pid = sys.argv[1]
 wt = sys.argv[2]
-round2 = len(sys.argv) > 3 and sys.argv[3] in ('2', '3', '4', '5')
+round2 = len(sys.argv) > 3 and sys.argv[3] in ('2', '3', '4', '5', '6')
+round6 = len(sys.argv) > 3 and sys.argv[3] == '6'
 round5 = len(sys.argv) > 3 and sys.argv[3] == '5'
 round4 = len(sys.argv) > 3 and sys.argv[3] == '4'
 flavour = sys.argv[4] if len(sys.argv) > 4 else 'a'
@@ -61,5 +62,14 @@ if round5:
     }[flavour]
     text = text.replace('What I need from you: TWO different changes', extra + '\n\nWhat I need from you: TWO different changes')
     text = text.replace('_out2/', '_out5/').replace('m3', 'm9').replace('m4', 'm10')
+    text += '\nKeep your progress messages short; do not paste whole files into your replies.'
+if round6:
+    extra = {
+        'g': 'For this task, BOTH changes must be HISTORY dependent: correct for any single call on a fresh object / fresh process, and wrong only after a specific sequence of calls (on the same object, or of other functions of this module earlier in the same process), e.g. a particular order of operations, a repeated or redundant call, a call that fails or is a no-op followed by a normal one, growth followed by shrinking followed by growth, or reuse of an object after it reported an error.',
+        'h': 'For this task, BOTH changes must be about integer WIDTH or SIGN: a narrower or differently signed intermediate (int32 vs int vs int64, uint8/uint16 counters, signed shifts, negative operands of % / >> / division, a conversion placed before instead of after an addition or multiplication), so that results are right until some quantity crosses 2^7, 2^8, 2^15, 2^16, 2^24, 2^31 or 2^32, or becomes negative. (Do not require more than about 64 MiB of memory.)',
+        'i': 'For this task, BOTH changes must be about the EDGES of the contract: what happens for empty, nil, zero-width, zero-length, single-element, maximal or exactly-at-the-limit arguments; the difference between returning an error / -1 / an empty result and panicking; which error value is returned; what a function leaves behind (partial output, advanced cursor, modified receiver) when it fails or has nothing to do.',
+    }[flavour]
+    text = text.replace('What I need from you: TWO different changes', extra + '\n\nWhat I need from you: TWO different changes')
+    text = text.replace('_out2/', '_out6/').replace('m3', 'm11').replace('m4', 'm12')
     text += '\nKeep your progress messages short; do not paste whole files into your replies.'
 print(text)
